@@ -142,7 +142,10 @@ func (h *genericContextualizer) Execute(ctx heimdall.Context, sub *subject.Subje
 	}
 
 	if h.ttl > 0 {
-		cacheKey = h.calculateCacheKey(ctx, sub, vals, payload)
+		if cacheKey, err = h.calculateCacheKey(ctx, sub, vals, payload); err != nil {
+			return err
+		}
+
 		if entry, err := cch.Get(ctx.AppContext(), cacheKey); err == nil {
 			var cd contextualizerData
 
@@ -263,22 +266,7 @@ func (h *genericContextualizer) createRequest(
 ) (*http.Request, error) {
 	logger := zerolog.Ctx(ctx.AppContext())
 
-	endpointRenderer := endpoint.RenderFunc(func(value string) (string, error) {
-		tpl, err := template.New(value)
-		if err != nil {
-			return "", errorchain.NewWithMessage(heimdall.ErrInternal, "failed to create template").
-				WithErrorContext(h).
-				CausedBy(err)
-		}
-
-		return tpl.Render(map[string]any{
-			"Subject": sub,
-			"Values":  values,
-			"Outputs": ctx.Outputs(),
-		})
-	})
-
-	req, err := h.e.CreateRequest(ctx.AppContext(), strings.NewReader(payload), endpointRenderer)
+	req, err := h.e.CreateRequest(ctx.AppContext(), strings.NewReader(payload), h.endpointRenderer(ctx, sub, values))
 	if err != nil {
 		return nil, errorchain.NewWithMessage(heimdall.ErrInternal, "failed creating request").
 			WithErrorContext(h).
@@ -352,13 +340,51 @@ func (h *genericContextualizer) readResponse(ctx heimdall.Context, resp *http.Re
 	return result, nil
 }
 
+func (h *genericContextualizer) endpointRenderer(
+	ctx heimdall.Context,
+	sub *subject.Subject,
+	values map[string]string,
+) endpoint.Renderer {
+	return endpoint.RenderFunc(func(value string) (string, error) {
+		tpl, err := template.New(value)
+		if err != nil {
+			return "", errorchain.NewWithMessage(heimdall.ErrInternal, "failed to create template").
+				WithErrorContext(h).
+				CausedBy(err)
+		}
+
+		return tpl.Render(map[string]any{
+			"Subject": sub,
+			"Values":  values,
+			"Outputs": ctx.Outputs(),
+		})
+	})
+}
+
 func (h *genericContextualizer) calculateCacheKey(
 	ctx heimdall.Context,
 	sub *subject.Subject,
 	values map[string]string,
 	payload string,
-) string {
+) (string, error) {
 	const int64BytesCount = 8
+
+	// the subject, the values and the payload are part of the key. If the URL or the headers of the
+	// endpoint reference the outputs of other mechanisms, the rendered URL and header values, which
+	// are part of the request sent to the endpoint and may influence the response, have to become
+	// part of the key as well
+	var endpointSettings []string
+
+	if h.e.References(".Outputs") {
+		var err error
+
+		endpointSettings, err = h.e.RenderedSettings(h.endpointRenderer(ctx, sub, values))
+		if err != nil {
+			return "", errorchain.NewWithMessage(heimdall.ErrInternal, "failed to calculate cache key").
+				WithErrorContext(h).
+				CausedBy(err)
+		}
+	}
 
 	ttlBytes := make([]byte, int64BytesCount)
 	binary.LittleEndian.PutUint64(ttlBytes, uint64(h.ttl))
@@ -371,6 +397,7 @@ func (h *genericContextualizer) calculateCacheKey(
 	hash.Write(stringx.ToBytes(payload))
 	hash.Write(ttlBytes)
 	hash.Write(sub.Hash())
+	hashx.WriteStrings(hash, endpointSettings...)
 
 	// the values of the forwarded headers and cookies are part of the request sent to
 	// the endpoint and may influence the response
@@ -395,7 +422,7 @@ func (h *genericContextualizer) calculateCacheKey(
 		hashx.WriteStrings(hash, k, values[k])
 	}
 
-	return hex.EncodeToString(hash.Sum(nil))
+	return hex.EncodeToString(hash.Sum(nil)), nil
 }
 
 func (h *genericContextualizer) renderTemplates(
